@@ -149,6 +149,21 @@ fn debug_sh(args: &[String]) {
                 p.pending_signals(),
                 p.blocked_signals()
             );
+            for (fd, b) in p.fds() {
+                let ofd = b.open_file_description.borrow();
+                let ino = ofd.inode().borrow();
+                eprintln!(
+                    "    fd {} ofd={:p} nonblocking={} r={} w={} inode={:p} type={:?} size={}",
+                    fd.0,
+                    std::rc::Rc::as_ptr(&b.open_file_description),
+                    ofd.is_nonblocking(),
+                    ofd.is_readable(),
+                    ofd.is_writable(),
+                    std::rc::Rc::as_ptr(ofd.inode()),
+                    ino.body.r#type(),
+                    ino.body.size()
+                );
+            }
         }
     }
     print!("{}", out.out());
